@@ -60,6 +60,10 @@ def cases(tier):
                 continue
             for cls in ("ConvexPolygon", "ConvexSpheropolygon"):
                 out.append({"t": "convex2-valid", "cls": cls, "poly": [list(p) for p in c], "order": list(o), "pl": PL3[k % 8]})
+                if n <= 4 or o[1] in (1, n - 1):
+                    # a prescribed normal (not of unit length) on either side: the vertices must come out
+                    # counter-clockwise about THAT normal whatever the input order
+                    out.append({"t": "convex2-valid", "cls": cls, "poly": [list(p) for p in c], "order": list(o), "pl": PL3[k % 8], "normal": "+" if (k + len(cls)) % 2 else "-"})
             k += 1
         for kind in ("centroid", "near-edge"):
             for cls in ("ConvexPolygon", "ConvexSpheropolygon"):
@@ -194,13 +198,17 @@ def run_case(case):
             # the default normal comes from the first three supplied vertices
             o1 = X.sign(X._orient2(pts[0], pts[1], pts[2]))
             rep.transitions += 1
+            kwn = {}
+            if case.get("normal"):
+                o1 = 1 if case["normal"] == "+" else -1
+                kwn["normal"] = R @ np.array([0.0, 0.0, 2.5 * o1])
             try:
-                obj = cls(F.copy(), *args)
+                obj = cls(F.copy(), *args, **kwn)
             except Exception as ex:
                 rep.violation("constructor", case["cls"], "__init__", "rejected-valid:" + type(ex).__name__, case, "%s rejected a set in convex position supplied in order %s: %r" % (case["cls"], o, ex))
                 return rep
             V = np.asarray(obj.vertices, float)
-            nrm = np.asarray(obj.normal, float)
+            nrm = np.asarray(obj.normal, float) if hasattr(obj, "normal") else np.asarray(obj.polygon.normal, float)
             want_n = R @ np.array([0.0, 0.0, float(o1)])
             # same vertex set
             key = lambda a: sorted(map(tuple, np.round(a / (np.abs(F).max() + 1e-300), 9).tolist()))  # noqa: E731
